@@ -41,6 +41,8 @@ func SiteName(id int) string {
 		return "simrt#lock"
 	case id == SiteUser:
 		return "harness#callback"
+	case id == SiteSyncMap:
+		return "simrt#syncmap-range"
 	}
 	return "simrt#?"
 }
